@@ -143,4 +143,79 @@ theorem bumpLast_adds_exactly (name : String) (amount : Int) (ps : List Pool) (p
 theorem vestedPart_nonvacuous : vestedPart 1000 50000000000000000 = 950 ∧ vestedPart 7 333333333333333333 = 4 := by
   decide
 
+/-! ### direct creation (`MsgCreateVestingAccount`) -/
+
+theorem amountOf_insertBy (lt : String × Int → String × Int → Bool) (x : String × Int) (d : String) :
+    ∀ l : CoinList, amountOf (insertBy lt x l) d = amountOf [x] d + amountOf l d
+  | [] => by simp [insertBy, amountOf]
+  | y :: ys => by
+    unfold insertBy
+    obtain ⟨kx, vx⟩ := x
+    obtain ⟨ky, vy⟩ := y
+    split
+    · simp only [amountOf]; omega
+    · have := amountOf_insertBy lt (kx, vx) d ys
+      simp only [amountOf] at this ⊢
+      omega
+
+/-- sorting the coins (`amount.Sort()`) changes no amount -/
+theorem amountOf_sortBy (lt : String × Int → String × Int → Bool) (d : String) :
+    ∀ l : CoinList, amountOf (sortBy lt l) d = amountOf l d
+  | [] => rfl
+  | x :: xs => by
+    unfold sortBy
+    simp only [List.foldr_cons]
+    have ih := amountOf_sortBy lt d xs
+    unfold sortBy at ih
+    rw [amountOf_insertBy, ih]
+    obtain ⟨k, v⟩ := x
+    simp only [amountOf]; omega
+
+/-- **`MsgCreateVestingAccount`, post-state of an accepted request** (sender ≠ recipient): the
+    recipient did not exist; afterwards it is a continuous vesting account whose original vesting is
+    exactly the given coins (sorted), with exactly the given start and end times and a fresh account
+    number — so ALL of the coins vest linearly between the two instants — and, in every
+    denomination, the recipient's balance grew and the sender's shrank by exactly the given amount -/
+theorem createVA_post (s : State) (src to : Addr) (amount : List (String × Option Int)) (startS endS : Int) (r : Res)
+    (h : createVA s src to amount startS endS = .ok r) (hne : src.s ≠ to.s) :
+    s.accts.get? to.s = none ∧
+    r.st.accts.get? to.s = some { kind := .cva, num := s.nextNum,
+                                   ov := sortBy (fun a b => a.1 < b.1) (unopt amount), startS := startS, endS := endS } ∧
+    ∀ d, amountOf (r.st.balance to.s) d = amountOf (s.balance to.s) d + amountOf (unopt amount) d ∧
+         amountOf (r.st.balance src.s) d = amountOf (s.balance src.s) d - amountOf (unopt amount) d := by
+  unfold createVA at h
+  split at h
+  · cases h
+  · simp only [] at h
+    split at h
+    · cases h
+    · split at h
+      · cases h
+      · rename_i hex
+        have hnone : s.accts.get? to.s = none := by
+          cases hg : s.accts.get? to.s with
+          | none => rfl
+          | some r => rw [hg] at hex; simp at hex
+        split at h
+        · rename_i s2 hsend
+          cases h
+          have := send_ok_eq _ _ _ _ _ hsend
+          subst this
+          refine ⟨hnone, ?_, ?_⟩
+          · -- the account record written by `newCva` survives the transfer (the recipient exists by then)
+            unfold State.applySend newCva
+            simp only []
+            rw [AList.get?_set_self]
+            simp
+            rw [AList.get?_set_self]
+          · intro d
+            have h1 := applySend_bal_dst (newCva s to.s (sortBy (fun a b => a.1 < b.1) (unopt amount)) startS endS) src.s to.s
+              (sortBy (fun a b => a.1 < b.1) (unopt amount)) d hne
+            have h2 := applySend_bal_src (newCva s to.s (sortBy (fun a b => a.1 < b.1) (unopt amount)) startS endS) src.s to.s
+              (sortBy (fun a b => a.1 < b.1) (unopt amount)) d hne
+            rw [amountOf_sortBy] at h1 h2
+            exact ⟨h1, h2⟩
+        · cases h
+        · cases h
+
 end C4E.Props.C08
